@@ -300,6 +300,10 @@ def run(repo: Repo, rep: Report, tier: str) -> None:
     rep.check(ok_gk, "C10-R6", f"{populate.short} groups edges by (resolved signal, colour)",
               f"group key = {norm(gk[0].value) if gk else 'missing'}", populate.loc(gk[0]) if gk else populate.loc())
 
+    rep.rule("C10-R8", "spanning-tree wiring only re-shapes one network: colour entries stored under tree-edge keys (placement-dependent) never replace the colour recorded for a logical edge")
+    from .shared import mst_colour_keys
+    mst_colour_keys(repo, rep, "C10-R8")
+
     # ---------------- R7 ---------------------------------------------------------------
     rep.rule("C10-R7", "common-subexpression elimination merges only IRArith/IRDecider nodes and keeps the first occurrence")
     for k in optimizers:
